@@ -360,23 +360,75 @@ Definition ptr_setf (al : alloc) (t : jv) (out : option (list byte)) (v : jv) : 
       end
   end.
 
+(* ---------------------------------------------------------------- the caller's variables *)
+
+(* The out-parameter `struct json_object **res` of get / getf.  The caller's variable holds
+   either what the caller put there before the call ([RPreset]) or the node a lookup stored;
+   [None] is res == NULL (documented: the call then only tests for existence). *)
+Inductive rvar :=
+| RPreset
+| RNode (path : loc) (node : jv).
+
+(* `if (res) *res = obj;` *)
+Definition store_res (res : option rvar) (path : loc) (n : jv) : option rvar :=
+  match res with Some _ => Some (RNode path n) | None => None end.
+
+(* json_pointer_get: rc = json_pointer_get_internal(obj, path, &jpres); if (rc) return rc;
+   if (res) *res = jpres.obj; return 0; *)
+Definition ptr_get_out (t : jv) (p : list byte) (res : option rvar) : gres * option rvar :=
+  match ptr_get t p with
+  | GErr e => (GErr e, res)
+  | GOk path n => (GOk path n, store_res res path n)
+  end.
+
+(* json_pointer_getf: the early returns (!obj, vasprintf < 0) touch nothing; "" stores obj;
+   otherwise json_pointer_object_get_recursive(obj, path_copy, res): `if (rc) return rc;
+   if (value) *value = res.obj;` *)
+Definition ptr_getf_out (t : jv) (out : option (list byte)) (res : option rvar) : gres * option rvar :=
+  if is_null t then (GErr EINVAL, res)
+  else match out with
+       | None => (GErr EOTHER, res)
+       | Some [] => (GOk [] t, store_res res [] t)
+       | Some s =>
+           match get_recursive t s with
+           | GErr e => (GErr e, res)
+           | GOk path n => (GOk path n, store_res res path n)
+           end
+       end.
+
+(* The root handle `*obj` of set / setf: it is assigned only by the "" case
+   (json_object_put( *obj); *obj = value), which cannot fail; everything else works inside the
+   tree.  [true] = the handle now holds a different pointer (NULL for JSON null). *)
+Definition root_replaced (t : jv) (p : list byte) (v : jv) : bool :=
+  match p with [] => negb (is_null t && is_null v) | _ => false end.
+
 (* ---------------------------------------------------------------- histories (the drivers) *)
 
 Inductive ptr_op :=
-| OGet (p : list byte)
-| OGetf (out : option (list byte))
+| OGet (p : list byte) (with_res : bool)                 (* with_res = false: res == NULL *)
+| OGetf (out : option (list byte)) (with_res : bool)
 | OSet (p : list byte) (v : jv)
 | OSetf (out : option (list byte)) (v : jv).
 
 Inductive ptr_obs :=
-| ObsGet (r : gres)
-| ObsSet (r : option errno).       (* None = success *)
+| ObsGet (r : gres) (res' : option rvar)      (* the caller's result variable after the call (preset before it) *)
+| ObsSet (r : option errno) (root_new : bool). (* None = success; did the root handle change *)
+
+Definition res_arg (with_res : bool) : option rvar := if with_res then Some RPreset else None.
 
 (* one operation: the tree afterwards and what the caller sees *)
 Definition ptr_step (al : alloc) (t : jv) (o : ptr_op) : jv * ptr_obs :=
   match o with
-  | OGet p => (t, ObsGet (ptr_get t p))
-  | OGetf out => (t, ObsGet (ptr_getf t out))
-  | OSet p v => match ptr_set al t p v with SOk t' => (t', ObsSet None) | SErr e => (t, ObsSet (Some e)) end
-  | OSetf out v => match ptr_setf al t out v with SOk t' => (t', ObsSet None) | SErr e => (t, ObsSet (Some e)) end
+  | OGet p w => let '(r, res') := ptr_get_out t p (res_arg w) in (t, ObsGet r res')
+  | OGetf out w => let '(r, res') := ptr_getf_out t out (res_arg w) in (t, ObsGet r res')
+  | OSet p v =>
+      match ptr_set al t p v with
+      | SOk t' => (t', ObsSet None (root_replaced t p v))
+      | SErr e => (t, ObsSet (Some e) false)
+      end
+  | OSetf out v =>
+      match ptr_setf al t out v with
+      | SOk t' => (t', ObsSet None (match out with Some p => root_replaced t p v | None => false end))
+      | SErr e => (t, ObsSet (Some e) false)
+      end
   end.
